@@ -61,6 +61,7 @@ type Rule struct {
 	Sal  int64   `json:"sal"`
 	When *Expr   `json:"when"`
 	Then []*Stmt `json:"then"`
+	Raw  string  `json:"raw,omitempty"` // text to hand to the builder instead of the printed tree (precedence probes)
 }
 
 // ---- constructors ----
@@ -172,6 +173,9 @@ func (s *Stmt) grl() string {
 }
 
 func (r *Rule) grl() string {
+	if r.Raw != "" {
+		return r.Raw
+	}
 	var b strings.Builder
 	fmt.Fprintf(&b, "rule %s \"%s\" salience %d {\n  when %s\n  then\n", r.Name, r.Desc, r.Sal, r.When.grl())
 	for _, s := range r.Then {
